@@ -68,7 +68,7 @@ func init() {
 		for k := 0; k < a.n; k++ {
 			tree := randomCliTree(rng)
 			fl := cliFlags{N: rng.Intn(3) == 0, R: rng.Intn(2) == 0, E: rng.Intn(3) == 0, U: rng.Intn(4) == 0,
-				T: []string{"", "", "", "xml", "json", "html"}[rng.Intn(6)], Q: []string{"ns", "ns", "empty", "num"}[rng.Intn(4)]}
+				T: []string{"", "", "", "xml", "json", "html"}[rng.Intn(6)], Q: []string{"ns", "ns", "ns", "empty", "num", "bool", "err", "bad"}[rng.Intn(8)]}
 			switch rng.Intn(3) {
 			case 0:
 				fl.A = true
@@ -104,8 +104,9 @@ func init() {
 					os.WriteFile(full, []byte(cliContent(e.Cls, tag)), 0o644)
 				}
 			}
-			q := cliQueries(fl.Q, 0)
+			q := cliQueries(fl.Q, k)
 			args := []string{"-x", q.expr}
+			args = append(args, q.args...)
 			for _, f := range []struct {
 				on bool
 				s  []string
@@ -148,7 +149,7 @@ func init() {
 					key = "stdin"
 					obs[i].Lines = -1
 				}
-				obs[i].Diag = strings.Contains(se.String(), key)
+				obs[i].Diag = strings.Contains(se.String(), key) || (e.Cls == "stdinxml" && strings.Contains(se.String(), "file -:"))
 				// the shape of the library's own result for this file under the type the command would use
 				data := []byte(stdin)
 				if e.Cls != "stdinxml" {
@@ -185,7 +186,7 @@ func init() {
 					}
 				}
 			}
-			ev := map[string]any{"ev": "cli", "tree": tree, "flags": fl, "obs": obs, "total": len(lines), "cmd": "xsel " + strings.Join(args, " ")}
+			ev := map[string]any{"ev": "cli", "tree": tree, "flags": fl, "obs": obs, "total": len(lines), "stderr": se.Len() > 0, "cmd": "xsel " + strings.Join(args, " ")}
 			if runErr != nil {
 				ev["exit"] = runErr.Error()
 			}
